@@ -473,6 +473,155 @@ def run_api_level(ctx, tmp, thorough):
 
 
 # ---------------------------------------------------------------------------------------------
+# API level, primitive steps: several handles open at once, other operations while a handle is open.
+# The property's API half ("the two file-system backends agree on every operation sequence") and the theorem
+# C18_fs_backends_equal quantify over sequences of the 14 backend operations, where _open / seek / read / write /
+# close are SEPARATE operations; the open...close blocks of run_api_level are only the sub-language in which nothing
+# happens between open and close.  Oracle: two-way equality of REAL PathIO and REAL AsyncPathIO (observation of every
+# step and the tree on disk after it) -- not a specification of what an unflushed write must look like.
+STEP_TREE = [["d", [["f", b"0123456789"], ["e", []]]], ["g", b"xyz12"], ["k", []]]
+STEP_PATHS = ["d/f", "g", "m", "d/n", "d", "k/x/y"]
+STEP_DATA = [b"PQ", b"", b"Z" * 100, b"b" * 8192, b"c" * 10000]     # below / at / above io.DEFAULT_BUFFER_SIZE
+
+
+def step_observers(p):
+    """what can look at a file (or its directory) while a handle on it is open"""
+    parent = p[:-1]
+    return [
+        [("stat", p)], [("exists", p)], [("is_file", p)], [("list", parent)],
+        [("h_open", 1, p, "rb"), ("h_read", 1, -1), ("h_close", 1)],
+        [("h_open", 1, p, "r+b"), ("h_read", 1, 3), ("h_write", 1, b"!!"), ("h_close", 1)],
+        [("h_open", 1, p, "ab"), ("h_write", 1, b"tail"), ("h_close", 1)],
+        [("h_open", 1, p, "wb"), ("h_close", 1)],
+        [("open", p, "rb", [("read", -1)])],
+        [("unlink", p)], [("rename", p, ["moved"])], [("rename", ["g"], p)], [("mkdir", p, False, True)],
+    ]
+
+
+def step_sequences(ctx, thorough):
+    rng = ctx.rng
+    seqs = []
+    writers = [
+        [("h_write", 0, b"PQRSTUVWXY")],
+        [("h_seek", 0, 4), ("h_write", 0, b"XY")],
+        [("h_write", 0, b"end")],
+        [("h_read", 0, 3), ("h_write", 0, b"Q")],
+        [("h_write", 0, b"b" * 8192), ("h_write", 0, b"t")],
+        [],
+    ]
+    for ps in ("d/f", "m", "d/n"):
+        p = P(ps)
+        for mode in ("wb", "ab", "r+b", "rb"):
+            for w in writers:
+                for obs in step_observers(p):
+                    seqs.append([("h_open", 0, p, mode)] + w + obs + [("h_close", 0), ("stat", p), ("open", p, "rb", [("read", -1)])])
+    ctx.count("api_steps_structured(mode x writes x observer-before-close)", len(seqs))
+    if not thorough:
+        seqs = rng.sample(seqs, 420) + [s_ for s_ in seqs if s_[0][3] != "rb" and s_[1:2] == [("h_write", 0, b"PQRSTUVWXY")]]
+    n0 = len(seqs)
+
+    def rpath():
+        return P(rng.choice(STEP_PATHS))
+
+    def rstep():
+        r = rng.random()
+        slot = rng.randrange(2)
+        if r < 0.22:
+            return ("h_open", slot, rpath(), rng.choice(["rb", "wb", "ab", "r+b", "wb", "r+b"]))
+        if r < 0.42:
+            return ("h_write", slot, rng.choice(STEP_DATA + [b"PQ", b"abc", b"Z"]))
+        if r < 0.50:
+            return ("h_seek", slot, rng.choice([0, 1, 4, 10, 20, 8192]))
+        if r < 0.60:
+            return ("h_read", slot, rng.choice([-1, 0, 1, 4, 100]))
+        if r < 0.70:
+            return ("h_close", slot)
+        if r < 0.85:
+            return (rng.choice(["stat", "exists", "is_file", "list"]), rpath())
+        if r < 0.90:
+            return ("open", rpath(), "rb", [("read", -1)])
+        if r < 0.94:
+            return ("unlink", rpath())
+        if r < 0.97:
+            return ("rename", rpath(), rpath())
+        return ("mkdir", rpath(), True, True)
+
+    nr = 20000 if thorough else 1200
+    for _ in range(nr):
+        seqs.append([rstep() for _ in range(rng.randint(3, 10))])
+    ctx.count("api_steps_random", nr)
+    ctx.count("api_steps_structured_run", n0)
+    return seqs
+
+
+def compare_steps(x, y):
+    """first step on which two runs differ, or None"""
+    for i, (a, b) in enumerate(zip(x, y)):
+        if a != b:
+            return i
+    return None if len(x) == len(y) else min(len(x), len(y))
+
+
+def run_api_steps(ctx, tmp, thorough, seqs=None):
+    seqs = seqs if seqs is not None else step_sequences(ctx, thorough)
+    pio = D.ApiBackend("pathio", os.path.join(tmp, "steps_p"))
+    apio = D.ApiBackend("asyncpathio", os.path.join(tmp, "steps_a"))
+    stats = {"steps": 0, "while_open": 0}
+
+    async def go():
+        for steps in seqs:
+            x = await pio.run_steps(STEP_TREE, steps)
+            y = await apio.run_steps(STEP_TREE, steps)
+            ctx.traces_impl += 2
+            ctx.case(("api-steps", repr(steps)))
+            stats["steps"] += len(x)
+            open_now = set()
+            for st in steps:
+                if st[0] == "h_open":
+                    open_now.add(st[1])
+                elif st[0] == "h_close":
+                    open_now.discard(st[1])
+                elif open_now and not st[0].startswith("h_"):
+                    stats["while_open"] += 1
+            i = compare_steps(x, y)
+            if i is not None:
+                # prefer the first step whose RESULT differs (visible through the backend API itself: stat, a second
+                # handle, ...) over the first step after which only the on-disk tree differs
+                j = compare_steps([a[0] for a in x], [b[0] for b in y])
+                tree_only = j is None
+                i = i if tree_only else j
+                st = steps[i] if i < len(steps) else ("h_close", "at-end")
+                ctx.violation(
+                    f"PathIO and AsyncPathIO differ on step {i} ({st[0]}) of a primitive-step sequence"
+                    + (" (tree on disk only)" if tree_only else " (result of the operation)"),
+                    {"key": f"api-two-way-steps:{'tree-after:' if tree_only else ''}{st[0]}", "kind": "api-steps",
+                     "tree": D.tree_json(STEP_TREE), "steps": op_json(steps), "step": i,
+                     "pathio": [D.obs_json(x[i][0]), D.tree_json(x[i][1])] if i < len(x) else None,
+                     "asyncpathio": [D.obs_json(y[i][0]), D.tree_json(y[i][1])] if i < len(y) else None},
+                )
+
+    loop = asyncio.new_event_loop()
+    try:
+        loop.run_until_complete(go())
+    finally:
+        loop.run_until_complete(loop.shutdown_default_executor())
+        loop.close()
+        pio.cleanup()
+        apio.cleanup()
+    ctx.count("api_steps_total", stats["steps"])
+    ctx.count("api_steps_other_operation_while_a_handle_is_open", stats["while_open"])
+    if seqs:
+        ctx.sample({"stream": "api-steps", "tree": D.tree_json(STEP_TREE), "steps": op_json(seqs[len(seqs) // 3])})
+
+
+def step_from_json(o):
+    o = op_from_json(o)
+    if o[0] == "h_open":
+        return ("h_open", o[1], list(o[2]), o[3])
+    return o
+
+
+# ---------------------------------------------------------------------------------------------
 # FTP level
 FTP_INIT = [["d", [["f", b"abc"], ["e", []]]], ["g", b"xyz12"], ["k", []], [".h", b"h"]]
 FTP_PATHS = ["d", "d/f", "d/e", "g", "k", "m", "m/n", "g/x", "d/e/h", "k/d"]
@@ -731,11 +880,16 @@ def correspondence(ctx):
         "REAL PathIO vs REAL AsyncPathIO (every 4th in quick). FTP level: every command of {MKD,RMD,DELE,CWD,MLST,RNFR,STOR/"
         "APPE x REST none/0/2/7,RETR x REST,LIST,MLSD} over a 10-path universe as a 1-command session, all RNFR x RNTO pairs, "
         "RNFR/mutation/RNTO triples and mutation+command pairs (sampled in quick), random sessions of 3-7 commands; each session "
-        "replayed over loopback on three real servers (MemoryPathIO, PathIO, AsyncPathIO). Non-trivial = distinct (tree, sequence)."
+        "replayed over loopback on three real servers (MemoryPathIO, PathIO, AsyncPathIO). API steps: sequences of PRIMITIVE "
+        "operations (h_open/h_seek/h_read/h_write/h_close on two handle slots + every path operation in between: stat/exists/"
+        "list/second rb, r+b, ab, wb handle/unlink/rename/mkdir while the first handle is still open; writes below, at and above "
+        "the 8 KiB buffer), structured (mode x write script x observer-before-close) + random, REAL PathIO vs REAL AsyncPathIO, "
+        "observation and on-disk tree after every step. Non-trivial = distinct (tree, sequence)."
     )
     tmp = make_tmp()
     try:
         x1 = run_api_level(ctx, tmp, thorough)
+        run_api_steps(ctx, tmp, thorough)
         x2 = run_ftp_level(ctx, tmp, thorough)
     finally:
         shutil.rmtree(tmp, ignore_errors=True)
@@ -828,6 +982,20 @@ def replay(ctx, data):
                 if a != b:
                     print("step", i, "pathio:", a, "asyncpathio:", b)
             return x == y
+        if r.get("kind") == "api-steps":
+            steps = [step_from_json(o) for o in r["steps"]]
+            tree = tree_from_json(r["tree"])
+            pio = D.ApiBackend("pathio", os.path.join(tmp, "p"))
+            apio = D.ApiBackend("asyncpathio", os.path.join(tmp, "a"))
+            loop = asyncio.new_event_loop()
+            x = loop.run_until_complete(pio.run_steps(tree, steps))
+            y = loop.run_until_complete(apio.run_steps(tree, steps))
+            loop.run_until_complete(loop.shutdown_default_executor())
+            loop.close()
+            i = compare_steps(x, y)
+            if i is not None:
+                print("reproduced: step", i, "pathio:", x[i] if i < len(x) else None, "asyncpathio:", y[i] if i < len(y) else None)
+            return i is None
         print("replay payload:", data)
         return False
     finally:
